@@ -12,6 +12,7 @@ Prints one JSON object: files {relative path: text}, write order, exception, int
 import hashlib
 import io
 import json
+import re
 import os
 import random
 import sys
@@ -438,6 +439,28 @@ def relocate_source(work):
     return dest if os.path.isdir(src) else os.path.join(dest, os.path.basename(src))
 
 
+def edit_one_schema(source):
+    """Add a global element to the first schema file below `source`; returns (path, original bytes) or None."""
+    top = source if os.path.isdir(source) else os.path.dirname(source)
+    for root, dirs, names in os.walk(top):
+        dirs.sort()
+        for nm in sorted(names):
+            if nm.endswith(".xsd"):
+                path = os.path.join(root, nm)
+                with open(path, "rb") as fp:
+                    original = fp.read()
+                i = original.rfind(b"</")
+                m = re.search(rb"<([A-Za-z_][\w.-]*:)?schema\b", original)
+                if i < 0 or not m:
+                    continue
+                prefix = (m.group(1) or b"")
+                extra = b"<" + prefix + b'element name="verifAddedByAnEarlierEdit" type="' + prefix + b'string"/>'
+                with open(path, "wb") as fp:
+                    fp.write(original[:i] + extra + original[i:])
+                return path, original
+    return None
+
+
 def main():
     try:
         import xsdata.cli  # noqa: F401 - load everything before patching the clock into the modules
@@ -456,6 +479,15 @@ def main():
         hp = dict(h["params"], package=SPEC["params"].get("package", "gen") if ENV.get("history_same_package") else f"hist{i}")
         f, w, e = generate(h["source"], h.get("recursive", False), hp, h.get("route", "api"), bool(ENV.get("cache")), os.path.join(work, f"hist{i}"))
         history.append({"files": len(f), "exc": e})
+    if ENV.get("edit_between") and SPEC["source"].startswith(work):
+        # the same files, at the same place, had other content when this interpreter generated from them a moment ago
+        edited = edit_one_schema(SPEC["source"])
+        if edited:
+            path, original = edited
+            f, w, e = generate(SPEC["source"], SPEC.get("recursive", False), dict(SPEC["params"], package="edited"), "api", False, os.path.join(work, "hist-edited"))
+            history.append({"files": len(f), "exc": e, "edited": os.path.basename(path)})
+            with open(path, "wb") as fp:
+                fp.write(original)
     params = dict(SPEC["params"])
     repeat = ENV.get("repeat", 1)
     out = None
